@@ -87,7 +87,7 @@ type c05Iter struct {
 	acts              []string // mutating actions after the instance's probe of the master had failed
 	created           bool
 	masterProbeFailed bool
-	master            string // the recorded master when the iteration began
+	master            string          // the recorded master when the iteration began
 	sentBefore        map[string]bool // statements sent before the probe of the master failed (they return later)
 }
 
